@@ -1,7 +1,7 @@
 //! C03 — end-to-end answers are right: optimum, infeasible, or error.
 //! Source TEXT (rendered from a generator AST in several spellings) -> RoocSolver -> auto_solver,
 //! judged by an independent interpreter of the generator AST.
-use crate::core::{Local, Run};
+use crate::core::{Digits, Local, Run};
 use crate::exact::{Q, Rel, q, qf, to_f64};
 use crate::linsem::*;
 use crate::lm::{Dom, Sense};
@@ -440,6 +440,71 @@ fn check_case(case: &Case, l: &mut Local) {
     }
 }
 
+/// family BK: Boolean compile-time constants. Every binary logic operator (keyword and symbolic spelling) over
+/// all four rows of its truth table, plus `not`, evaluated at compile time in three positions (a where-constant
+/// built from two named constants, an inline constant expression in a row, a declaration bound) and used as a
+/// number: the optimum of `max x` under `x <= 3 + 4 * k` must be 3 + 4 * [k].
+const BK_OPS: [(&str, &str); 11] = [("and", "and"), ("or", "or"), ("xor", "xor"), ("implies", "implies"), ("iff", "iff"), ("and", "&&"), ("or", "||"), ("implies", "->"), ("iff", "<->"), ("not", "not"), ("not", "!")];
+fn family_bk_size() -> u64 {
+    (BK_OPS.len() * 4 * 3) as u64
+}
+fn check_bk(i: u64, l: &mut Local) {
+    let mut d = Digits(i);
+    let (op, spelling) = *d.of(&BK_OPS);
+    let p = d.pick(2) == 1;
+    let q = d.pick(2) == 1;
+    let position = d.pick(3);
+    let truth = match op {
+        "and" => p && q,
+        "or" => p || q,
+        "xor" => p != q,
+        "implies" => !p || q,
+        "iff" => p == q,
+        _ => !p,
+    };
+    let lit = |b: bool| if b { "true" } else { "false" };
+    let unary = op == "not";
+    let (text, expected) = match position {
+        0 => {
+            let k = if unary { format!("{spelling} p") } else { format!("p {spelling} q") };
+            (format!("max x\ns.t.\n    x <= 3 + 4 * k\nwhere\n    let p = {}\n    let q = {}\n    let k = {k}\ndefine\n    x as IntegerRange(0, 10)\n", lit(p), lit(q)), 3.0 + 4.0 * truth as u8 as f64)
+        }
+        1 => {
+            let k = if unary { format!("({spelling} {})", lit(p)) } else { format!("({} {spelling} {})", lit(p), lit(q)) };
+            (format!("max x\ns.t.\n    x <= 3 + 4 * {k}\ndefine\n    x as IntegerRange(0, 10)\n"), 3.0 + 4.0 * truth as u8 as f64)
+        }
+        _ => {
+            let k = if unary { format!("{spelling} {}", lit(p)) } else { format!("{} {spelling} {}", lit(p), lit(q)) };
+            (format!("max x\ns.t.\n    x <= 9\nwhere\n    let k = {k}\ndefine\n    x as IntegerRange(0, 2 + 3 * k)\n"), 2.0 + 3.0 * truth as u8 as f64)
+        }
+    };
+    l.count("texts");
+    l.count("boolean-constant-texts");
+    let signature = format!("boolean-constant op={op} spelling={spelling} p={p} q={q} position={position}");
+    let case_json = |what: String| json!({"source": text, "what": what, "expected_optimum": expected, "signature": signature});
+    l.sample(|| case_json("sample".into()));
+    let result = crate::core::catch(|| RoocSolver::try_new(text.clone()).map(|s| s.solve_using(rooc::auto_solver)));
+    match result {
+        Err(p) => l.violation(format!("panic:{signature}"), p.clone(), case_json(p)),
+        // a spelling the compiler refuses is no wrong answer: counted, not judged
+        Ok(Err(_)) => l.count("boolean-constant-text-refused-by-the-parser"),
+        Ok(Ok(Err(RoocSolverError::Solver(e)))) => {
+            let msg = format!("{:?}", e).chars().take(200).collect::<String>();
+            l.violation(format!("wrong-verdict:{signature}"), format!("the text has optimum {expected} but the solver answers {msg}"), case_json(msg.clone()));
+        }
+        Ok(Ok(Err(_))) => l.count("boolean-constant-text-refused-by-the-compiler"),
+        Ok(Ok(Ok(sol))) => {
+            l.count("answer:solution");
+            l.nontrivial(&text);
+            if (sol.value() - expected).abs() > 1e-6 {
+                l.violation(format!("wrong-optimum:{signature}"), format!("reported optimum {} but the truth table gives {expected}", sol.value()), case_json(format!("{}", sol)));
+            } else {
+                l.count("boolean-constant-optimum-agrees-with-the-truth-table");
+            }
+        }
+    }
+}
+
 pub fn run(mut run: Run) -> ! {
     crate::core::silence_panics();
     run.isolate = true;
@@ -493,7 +558,8 @@ pub fn run(mut run: Run) -> ! {
             check_case(&c, l)
         });
     }
-    for k in ["texts", "answer:solution", "answer:infeasible", "reference:feasible", "reference:infeasible"] {
+    run.family("BK-boolean-compile-time-constants", family_bk_size(), check_bk);
+    for k in ["texts", "answer:solution", "answer:infeasible", "reference:feasible", "reference:infeasible", "boolean-constant-optimum-agrees-with-the-truth-table"] {
         run.require(k);
     }
     run.finish()
